@@ -23,7 +23,7 @@ from core import Exn, call, cstr, cbool, clist
 from reqgen import KINDS, KIND_ORDER, BINDINGS, NOW, cfgspec, rspec
 
 CLAIM = {
-    "text": "Coq theorems (Props/C10.v, 14, all closed) over an executable model of Entity._parse_request (receiver addresses per service/binding/context with the aa/aq/pdp fallback and the odd-endpoint-spec branch of Config.endpoint, accepted_time_diff, the section the want_* options are read from, must = want_authn_requests_signed or want_authn_requests_only_with_valid_cert), Entity.unravel per binding incl. the SOAP envelope reader, Request._loads (every non-TypeError exception of the signature check ends in IncorrectlySigned; valid_instance), SecurityContext.correctly_signed_message (root element test, unsigned-and-must, signed -> _check_signature: certificate selection of C03, per-certificate tool runs with the symbolic tool semantics of Model/Xmlsec.v, certificate validation) and Request._verify (Version, Destination, IssueInstant window). PROVED for every configuration, request kind, binding and received text, and for both states of the C01 pre-check (C10_handed_over_only_if_valid): a request is handed to the application only if the text is a clean encoding of it, its root element is the expected request type of that entry point, valid_instance passed, Version is 2.0, Destination is absent/empty or one of the receiver's own addresses for that service and binding (or the receiver has none), IssueInstant lies in [now-86400-slack, now+86400+slack), a signature child on the root verified (tool semantics, either duplicate-ID policy) under a candidate certificate of the issuer that also passed certificate validation - with only_use_keys_in_metadata (the default) a certificate the metadata holds for the issuer with use signing - and want_authn_requests_signed / only_with_valid_cert imply a signature is present; C10_own_options_honoured restates the last clause for the options CONFIGURED in the section of the entity's own type (idp or aa). These are theorems about the model of the library as repaired by three fix: commits in /repo: 0b54cc6b (F16: _check_signature insists on a verified signature whatever only_valid_cert says; C10_before_fix_refuted keeps the witness, C10_repair_keeps_the_rest shows nothing else changes) and dace676c (an attribute authority's own want_* options are read; C10_options_before_fix_refuted keeps the witness), and f6d4380b (the C01 enveloping pre-check; Model/Request.v PRECHECK_IN_FORCE = true, C10_code_state). PROVED for today's code state, WITH the enveloping pre-check of the C01 repair (pre = true): the verified signature is the root's only Signature child, refers to the root's ID and digests exactly the root without it (C10_signature_covers_request), hence every modification of a signed request is refused when the sender's keys signed nothing else (C10_tamper). For the library before f6d4380b (no pre-check) that half is REFUTED by a wrapping witness (C10_covers_refuted_without_precheck) and proved under the hypothesis that the pre-check predicate holds of the received document (C10_covers_partial, C10_tamper_partial). C10_table_is_documented: the entry-point table (method -> request class, msgtype, service, root tag accepted by <msgtype>_from_string, SOAP reader and its root tag, pass-through of the text and must), regenerated from the code by recording on every run, equals the table the model uses. C10_undecodable_refused, C10_wrong_root_refused, C10_witness (non-vacuity). Tie to the code: on every run the real entry points (8 parse_* methods on IdP / AA / SP entities plus Saml2Client.handle_logout_request) and the model are run on the same ~7 300 cases (all 8 request kinds, Redirect/POST/SOAP and the odd bindings, signed/unsigned/wrong key x want_authn_requests_signed x only_with_valid_cert x validate_certificate x only_use_keys_in_metadata x 7 metadata key layouts, 17 mutation operators on signed requests and 33 wrapping variants under both duplicate-ID policies, genuinely signed requests whose Extensions carry the request's ID (or a near miss) on an element of another name, destination variants incl. near misses over 8 endpoint layouts, IssueInstant around both edges for 4 allowances, versions, schema-invalid requests, wrong roots, truncated/garbled encodings and SOAP shapes, seeded random combinations), compared at handed-over/refused granularity.",
+    "text": "Coq theorems (Props/C10.v, 22, all closed) over an executable model of Entity._parse_request (receiver addresses per service/binding/context with the aa/aq/pdp fallback and the odd-endpoint-spec branch of Config.endpoint, accepted_time_diff, the section the want_* options are read from, must = want_authn_requests_signed or want_authn_requests_only_with_valid_cert), Entity.unravel per binding incl. the SOAP envelope reader, Request._loads (every non-TypeError exception of the signature check ends in IncorrectlySigned; valid_instance), SecurityContext.correctly_signed_message (root element test, unsigned-and-must, signed -> _check_signature: certificate selection of C03, per-certificate tool runs with the symbolic tool semantics of Model/Xmlsec.v, certificate validation) and Request._verify (Version, Destination, IssueInstant window). PROVED for every configuration, request kind, binding and received text, and for both states of the C01 pre-check (C10_handed_over_only_if_valid): a request is handed to the application only if the text is a clean encoding of it, its root element is the expected request type of that entry point, valid_instance passed, Version is 2.0, Destination is absent/empty or one of the receiver's own addresses for that service and binding (or the receiver has none), IssueInstant lies in [now-86400-slack, now+86400+slack), a signature child on the root verified (tool semantics, either duplicate-ID policy) under a candidate certificate of the issuer that also passed certificate validation - with only_use_keys_in_metadata (the default) a certificate the metadata holds for the issuer with use signing - and want_authn_requests_signed / only_with_valid_cert imply a signature is present; C10_own_options_honoured restates the last clause for the options CONFIGURED in the section of the entity's own type (idp or aa). These are theorems about the model of the library as repaired by three fix: commits in /repo: 0b54cc6b (F16: _check_signature insists on a verified signature whatever only_valid_cert says; C10_before_fix_refuted keeps the witness, C10_repair_keeps_the_rest shows nothing else changes) and dace676c (an attribute authority's own want_* options are read; C10_options_before_fix_refuted keeps the witness), and f6d4380b (the C01 enveloping pre-check; Model/Request.v PRECHECK_IN_FORCE = true, C10_code_state). PROVED for today's code state, WITH the enveloping pre-check of the C01 repair (pre = true): the verified signature is the root's only Signature child, refers to the root's ID and digests exactly the root without it (C10_signature_covers_request), hence every modification of a signed request is refused when the sender's keys signed nothing else (C10_tamper). For the library before f6d4380b (no pre-check) that half is REFUTED by a wrapping witness (C10_covers_refuted_without_precheck) and proved under the hypothesis that the pre-check predicate holds of the received document (C10_covers_partial, C10_tamper_partial). C10_table_is_documented: the entry-point table (method -> request class, msgtype, service, root tag accepted by <msgtype>_from_string, SOAP reader and its root tag, pass-through of the text and must), regenerated from the code by recording on every run, equals the table the model uses. The recorded table also says which of _loads / loads / _verify / verify / issue_instant_ok each request class resolves to a definition other than Request's own (none): there is ONE pipeline for all eight kinds. NO KIND-SPECIFIC EXCEPTION, proved over the kind parameter: the model's request document carries the kind-specific optional content of the root (d_opts: LogoutRequest NotOnOrAfter / Reason / SessionIndex, AuthnRequest Conditions / Subject / ForceAuthn / IsPassive / Scoping, the optional children of the queries and of ManageNameID / NameIDMapping requests, each dateTime with its value) and C10_blind_to_optional_content shows that for every kind, binding, configuration and text the outcome is unchanged when that content is replaced by any other; C10_no_kind_specific_exception is the refusal form of the full statement (stale / dated ahead / no instant, addressed elsewhere, unsigned-but-wanted, other version, schema-invalid, other root => handed over by no entry point, whatever it carries) and C10_future_not_on_or_after_does_not_excuse its instance for a NotOnOrAfter (or any other dateTime) ahead of now. LONG-LIVED RECEIVER, by induction over message sequences (C10_history, C10_history_handed_over_only_if_valid): whatever one receiver has handed over at any point of a sequence was handed over by _parse_request on that message alone, and ops1 ++ ops2 hands over what ops1 and ops2 do apart - earlier valid requests excuse nothing later. C10_undecodable_refused, C10_wrong_root_refused, C10_witness, C10_logout_witness (non-vacuity). Tie to the code: on every run the real entry points (8 parse_* methods on IdP / AA / SP entities plus Saml2Client.handle_logout_request) and the model are run on the same ~18 300 cases (every request kind WITH each optional attribute / child of that kind alone and combined - 58 option sets incl. NotOnOrAfter 1 s / 1 h / 2 d / 10 y ahead, now and past, Conditions windows open / wide / past / future / one-sided, SubjectConfirmationData windows - x Redirect / POST / SOAP x IssueInstant at +-(86400+allowance) -2..+2 s x Destination swapped with another own endpoint / foreign / near miss x Version x dropped ID x want / only_valid_cert with unsigned, signed, signed-and-stale, signed-and-misaddressed, wrong key, edited, stripped, on IdP, stand-alone AA, SP and through handle_logout_request, the valid request first and again last on each long-lived receiver; shuffled valid / refusable sequences with re-sent texts on one object per kind and binding; and: all 8 request kinds, Redirect/POST/SOAP and the odd bindings, signed/unsigned/wrong key x want_authn_requests_signed x only_with_valid_cert x validate_certificate x only_use_keys_in_metadata x 7 metadata key layouts, 17 mutation operators on signed requests and 33 wrapping variants under both duplicate-ID policies, genuinely signed requests whose Extensions carry the request's ID (or a near miss) on an element of another name, destination variants incl. near misses over 8 endpoint layouts, IssueInstant around both edges for 4 allowances, versions, schema-invalid requests, wrong roots, truncated/garbled encodings and SOAP shapes, seeded random combinations), compared at handed-over/refused granularity; oracle keys of requests with optional content name the kind and the attributes.",
     "note": "Trusted: Coq kernel + vm_compute; the hand-written model is tied to the code by testing (the correspondence above), not proof; signatures are symbolic (a signature node records key, intactness and the digested content) and every statement about verification is relative to the stand-in tool's node-selection semantics (real xmlsec1 is absent); valid_instance (C13), certificate-chain validation (cert.py) and the transport decoders (C14) enter the model as classified inputs computed by the harness itself. Three defects found by this check were repaired in /repo (known_findings.json 'fixed'): F16 (0b54cc6b), the aa option section (dace676c) and request wrapping (5 oracle keys wrapped-request-handed-over:*, repaired with C01's pre-check f6d4380b); the oracle keys stay in the harness and report them again if they return. Only tested, not proved: agreement of model and code; the IssueInstant edges exactly at now-86400-slack and now+86400+slack are run but not compared; a Redirect-binding query-string signature is never seen by _parse_request (the application must call verify_redirect_signature, property C15); an IdP serving attribute queries through the aa/aq/pdp endpoint fallback reads the want options of its idp section only (not generated).",
     "technique": "machine-checked proof (Coq) + regenerated-table obligation + model/implementation correspondence + implementation-level oracle",
 }
@@ -38,6 +38,8 @@ ASSUMPTIONS = [
     "the SP side has no want-signed option for requests (the options are not in config.SP_ARGS): an unsigned LogoutRequest is handed over by an SP whatever its configuration",
     "the want options are those of the section of the entity's own type (idp / aa); options placed in the aa/aq/pdp sections of an entity of type idp are not generated",
     "IssueInstant exactly at an edge of the window is left unspecified by the property (code: lower edge inside, upper edge outside); generated, run, not compared",
+    "the kind-specific optional content (d_opts) of a request is the harness's own reading of the XML; the model never reads it, so its encoding only matters to the statements C10_blind_to_optional_content / C10_future_not_on_or_after_does_not_excuse",
+    "one long-lived receiver = the cached Server / Saml2Client object of a configuration spec, reused for every case of that configuration in generation order; the model is stateless (C10_history)",
 ]
 RULE = ("a case is non-trivial when something of the property's quantifier is at stake: a signature is present or wanted, the Destination is set, "
         "the IssueInstant is not `now`, the version is not 2.0, the root is not the expected one, the document is schema-invalid or the text is "
@@ -111,7 +113,7 @@ class Cases(object):
             self.valid_certs[k] = ok
         return self.valid_certs[k]
 
-    def add_doc(self, fam, cs, kind, bname, xml, meta, r, signer=None, soap_env=g.SOAP_ENV, note=None, via=None):
+    def add_doc(self, fam, cs, kind, bname, xml, meta, r, signer=None, soap_env=g.SOAP_ENV, note=None, via=None, tag=None):
         """a well-formed request document sent cleanly over the binding"""
         term, f = g.doc_coq(xml, meta["valid"])
         if bname == "soap":
@@ -120,11 +122,12 @@ class Cases(object):
             wire = "(WText (Xml %s))" % term
         text = g.encode(xml, bname, soap_env)
         facts = dict(doc=f, meta=meta, signer=signer, r=r)
-        self.add(fam, cs, kind, bname, text, wire, facts, note, via)
+        self.add(fam, cs, kind, bname, text, wire, facts, note, via, tag)
 
-    def add(self, fam, cs, kind, bname, text, wire, facts, note=None, via=None):
+    def add(self, fam, cs, kind, bname, text, wire, facts, note=None, via=None, tag=None):
+        """tag: position in a history - the same text sent AGAIN to the same long-lived receiver is a case of its own"""
         ctx = self.ctx
-        ident = (repr(sorted(cs.items())), kind, bname, text, via)
+        ident = (repr(sorted(cs.items())), kind, bname, text, via, tag)
         if ident in self.seen:
             return
         self.seen.add(ident)
@@ -158,6 +161,8 @@ class Cases(object):
         show = dict(family=fam, cfg={k: v for k, v in cs.items()}, kind=kind, binding=bname, note=note)
         if via:
             show["via"] = via
+        if tag is not None:
+            show["history"] = tag
         if facts:
             show["mutation"] = facts["meta"].get("name")
             show["request"] = facts["r"]
@@ -212,8 +217,12 @@ class Cases(object):
             return
         mname = meta.get("name")
 
+        # a request carrying kind-specific optional attributes: the key names the kind and the attributes
+        osfx = ":%s:opts=%s" % (kind, "+".join(r["opts"])) if r.get("opts") else ""
+
         def fail(key, what):
-            ctx.oracle_fail(key, what + " [%s over %s, mutation %s]" % (kind, bname, mname), replay)
+            ctx.oracle_fail(key + osfx, what + " [%s over %s, mutation %s%s]" % (
+                kind, bname, mname, ", optional content %s" % r["opts"] if osfx else ""), replay)
         if d["root_tag"] != "{%s}%s" % (g.SAMLP, KINDS[kind]["tag"]):
             fail("wrong-root-handed-over:%s:%s" % (kind, d["root_tag"]), "a %s was handed over by %s" % (d["root_tag"], KINDS[kind]["method"]))
         if not d["valid"]:
@@ -621,6 +630,155 @@ def fam_encodings(C, quick):
     C.add_doc("encoding", cs, "authz", "soap", g.request_xml(r), _named(dict(valid=True, modified=False, wrap=None), "none"), r)
 
 
+PLAIN = dict(valid=True, modified=False, wrap=None, name="none")
+_SLACKS = [None, 0, 60, 300]
+
+
+def _swapped(cs, kind, bname):
+    """own addresses of this receiver that are NOT its addresses for (service of kind, binding): the endpoint of the same
+    service for another binding, and the endpoint of another service for the same binding"""
+    own = set(u for u in g.own_endpoints(cs, KINDS[kind]["service"], bname) if u)
+    out = []
+    for b2 in MAIN_B:
+        for u in g.own_endpoints(cs, KINDS[kind]["service"], b2):
+            if u and u not in own and u not in out:
+                out.append(u)
+                break
+    for k2 in KIND_ORDER:
+        if k2 != kind:
+            for u in g.own_endpoints(cs, KINDS[k2]["service"], bname):
+                if u and u not in own and u not in out:
+                    out.append(u)
+                    return out
+    return out
+
+
+def _optional_clauses(C, fam, etype, eps, kind, bname, opts, slacks, quick, via=None):
+    """one request kind WITH a set of its optional attributes, crossed with every clause of the property.  Order on each
+    long-lived receiver: the valid request first, then the ones to refuse, the valid one again last."""
+    issuer, key = SENDER[etype], SENDER_KEY[etype]
+    base = cfgspec(etype=etype, eps=eps)
+    own = [u for u in g.own_endpoints(base, KINDS[kind]["service"], bname) if u]
+    dest0 = own[0] if own else None
+
+    def send(cs, r, sign=None, tag=None, mut=None):
+        x = g.request_xml(r, sign=sign)
+        meta = PLAIN
+        if mut:
+            mm = g.mutate(x, mut, r)
+            if mm is None:
+                return
+            x, meta = mm[0], _named(mm[1], mut.split(":")[0])
+        C.add_doc(fam, cs, kind, bname, x, meta, r, signer=sign, via=via, tag=tag)
+    # (i) the IssueInstant window: edges -2..+2 s around +-(86400 + allowance)
+    for slack in slacks:
+        cs = cfgspec(etype=etype, eps=eps, slack=slack)
+        w = 86400 + (slack or 0)
+        valid = rspec(kind=kind, issuer=issuer, destination=dest0, opts=opts)
+        send(cs, valid, tag="first")
+        for dt in [-w - 2, -w - 1, -w, -w + 1, -w + 2, w - 2, w - 1, w, w + 1, w + 2]:
+            send(cs, rspec(kind=kind, issuer=issuer, destination=dest0, dt=dt, opts=opts))
+        send(cs, valid, tag="again")
+    # (ii) Destination: swapped with another own endpoint, foreign, near miss
+    cs = base
+    for d in _swapped(base, kind, bname) + [g.EVIL + "x"] + ([dest0 + "/"] if dest0 else []):
+        send(cs, rspec(kind=kind, issuer=issuer, destination=d, opts=opts))
+    # (iii) Version, schema validity
+    send(cs, rspec(kind=kind, issuer=issuer, destination=dest0, version="2.1", opts=opts))
+    r = rspec(kind=kind, issuer=issuer, destination=dest0, opts=opts)
+    x = ET.fromstring(g.request_xml(r))
+    del x.attrib["ID"]
+    C.add_doc(fam, cs, kind, bname, ET.tostring(x, encoding="unicode"), _named(dict(valid=False, modified=True, wrap=None), "drop-ID"), r, via=via)
+    send(cs, r, tag="after-refusals")
+    # (iv) signatures wanted (IdP / AA; an SP has no such option - there the signed ones are checked all the same)
+    w = 86400
+    for want, ovc in ([(True, None)] if quick else [(True, None), (None, True)]):
+        cs = cfgspec(etype=etype, eps=eps, want=want, ovc=ovc)
+        send(cs, r, sign=key, tag="first")
+        send(cs, r)                                                   # unsigned but wanted
+        send(cs, rspec(kind=kind, issuer=issuer, destination=dest0, dt=-w - 1, opts=opts), sign=key)   # signed, stale
+        send(cs, rspec(kind=kind, issuer=issuer, destination=dest0, dt=w + 1, opts=opts), sign=key)    # signed, dated ahead
+        send(cs, rspec(kind=kind, issuer=issuer, destination=g.EVIL + "x", opts=opts), sign=key)       # signed for somebody else
+        send(cs, r, sign="other")                                     # signed by a key the metadata does not hold
+        send(cs, r, sign=key, mut="edit-content")                     # edited after signing
+        if not quick or opts[0].startswith(("noa", "cond", "sc", "subject-sc")):
+            send(cs, r, sign=key, mut="edit-issue-instant")
+            send(cs, r, sign=key, mut="strip-signature")
+        send(cs, r, sign=key, tag="again")
+    cs = cfgspec(etype=etype, eps=eps, ovc=True)
+    send(cs, r)
+    send(cs, r, sign=key, tag="after-refusal")
+
+
+def fam_optional(C, quick):
+    """(a) every request kind WITH each optional attribute / child of that kind (LogoutRequest NotOnOrAfter ahead / past,
+    Reason, SessionIndex; AuthnRequest Conditions, Subject, ForceAuthn / IsPassive, Scoping, ...; the queries' and
+    ManageNameID / NameIDMapping requests' own optional children) x binding x every clause"""
+    n = 0
+    for kind in KIND_ORDER:
+        for bname in MAIN_B:
+            if kind == "authz" and bname == "soap":
+                continue                                              # no SOAP reader for this kind (fam_encodings)
+            for opts in g.OPT_SETS[kind]:
+                n += 1
+                slacks = [_SLACKS[n % 4], _SLACKS[(n // 4 + n + 1 + n % 2) % 4]] if quick else _SLACKS
+                _optional_clauses(C, "optional-content", "idp", "full", kind, bname, opts, slacks, quick)
+    # an SP taking LogoutRequest / ManageNameIDRequest of the IdP, an attribute authority of its own
+    for etype, eps, kinds in [("sp", "sp-full", ["logout", "mni"]), ("aa", "aa-only", ["attrq", "authnq", "logout"])]:
+        for kind in kinds:
+            for bname in (["soap", "post"] if quick else MAIN_B):
+                for opts in g.OPT_SETS[kind]:
+                    n += 1
+                    _optional_clauses(C, "optional-content", etype, eps, kind, bname, opts, [_SLACKS[n % 4]] if quick else _SLACKS, quick)
+    # the library's own consumer of a LogoutRequest: it must not ACT on what _parse_request would not hand over
+    for bname in ["soap", "post"] + ([] if quick else ["redirect"]):
+        for opts in g.OPT_SETS["logout"]:
+            if quick and not (opts[0].startswith("noa") or len(opts) > 1):
+                continue
+            n += 1
+            _optional_clauses(C, "optional-content", "sp", "sp-full", "logout", bname, opts, [_SLACKS[n % 4]] if quick else _SLACKS, quick,
+                              via="handle_logout_request")
+
+
+def fam_history(C, quick, rng):
+    """(b) ONE long-lived receiver per configuration taking in a long sequence: valid requests of a kind / binding, then
+    requests to refuse of the SAME kind / binding, then the valid one again - with and without optional content.  The
+    model has no state (C10_history); the same text sent again is a case of its own."""
+    for etype, eps, kinds in [("idp", "full", KIND_ORDER), ("sp", "sp-full", ["logout", "mni"]), ("aa", "aa-only", ["attrq", "authnq", "logout"])]:
+        issuer, key = SENDER[etype], SENDER_KEY[etype]
+        for want in ([None, True] if etype != "sp" else [None]):
+            cs = cfgspec(etype=etype, eps=eps, want=want, slack=60)
+            w = 86400 + 60
+            step = 0
+            for rnd in range(2 if quick else 6):
+                for kind in kinds:
+                    for bname in ["post", "soap"]:
+                        if kind == "authz" and bname == "soap":
+                            continue
+                        own = [u for u in g.own_endpoints(cs, KINDS[kind]["service"], bname) if u]
+                        dest0 = own[0] if own else None
+                        opts = rng.choice([None] + g.OPT_SETS[kind])
+                        sign = key if (want or rng.random() < 0.5) else None
+                        good = rspec(kind=kind, issuer=issuer, destination=dest0, opts=opts)
+                        bad = [(rspec(kind=kind, issuer=issuer, destination=dest0, dt=rng.choice([-w - 1, w + 1, -w - 2, w + 2]), opts=opts), sign, None),
+                               (rspec(kind=kind, issuer=issuer, destination=g.EVIL + "x", opts=opts), sign, None),
+                               (good, None if want else "other", None),
+                               (good, key, "edit-content"),
+                               (rspec(kind=kind, issuer=issuer, destination=dest0, version="1.1", opts=opts), sign, None)]
+                        rng.shuffle(bad)
+                        for r, sg, mut in [(good, sign, None), (good, sign, None)] + bad[:3] + [(good, sign, None)]:
+                            step += 1
+                            x = g.request_xml(r, sign=sg)
+                            meta = PLAIN
+                            if mut:
+                                mm = g.mutate(x, mut, r)
+                                if mm is None:
+                                    continue
+                                x, meta = mm[0], _named(mm[1], mut)
+                            C.add_doc("history", cs, kind, bname, x, meta, r, signer=sg, tag="step-%d" % step)
+
+
+
 def fam_random(C, quick, rng):
     """seeded random combinations of everything above"""
     n = 350 if quick else 25000
@@ -640,7 +798,8 @@ def fam_random(C, quick, rng):
         dest = rng.choice([None, None, ""] + own + own + [u + "/" for u in own[:1]] + [g.EVIL])
         dt = rng.choice([0, 0, 0, rng.randint(-w + 1, w - 1), -w - rng.randint(1, 100), w + rng.randint(1, 100), -w + 1, w - 1])
         issuer = rng.choice([SENDER[etype]] * 4 + [env.SP2_ID if etype != "sp" else env.IDP2_ID, g.UNKNOWN_SP])
-        r = rspec(kind=kind, issuer=issuer, destination=dest, dt=dt, version=rng.choice(["2.0"] * 6 + ["1.1", "2.1"]))
+        r = rspec(kind=kind, issuer=issuer, destination=dest, dt=dt, version=rng.choice(["2.0"] * 6 + ["1.1", "2.1"]),
+                  opts=rng.choice([None, None] + g.OPT_SETS[kind]))
         key = rng.choice([None, SENDER_KEY[etype], SENDER_KEY[etype], "other"])
         if key is None:
             C.add_doc("random", cs, kind, bname, g.request_xml(r), _named(dict(valid=True, modified=False, wrap=None), "none"), r)
@@ -667,6 +826,8 @@ def run(ctx):
         fam_handle_logout(C, ctx.quick)
         fam_wrong_root(C, ctx.quick)
         fam_encodings(C, ctx.quick)
+        fam_optional(C, ctx.quick)
+        fam_history(C, ctx.quick, ctx.rng)
         fam_random(C, ctx.quick, ctx.rng)
     ctx.exhaustive = False
     # the regenerated table against the harness's own copy of the documented one (the Coq theorem compares it with the model's)
@@ -674,15 +835,14 @@ def run(ctx):
     for k in KIND_ORDER:
         d = KINDS[k]
         row = rows.get(d["method"])
-        want = [d["tag"], d["msgtype"], d["service"], d["msgtype"], True, [d["tag"]], d["soap"], [d["tag"]] if d["soap"] else []]
+        want = [d["tag"], d["msgtype"], d["service"], d["msgtype"], True, [d["tag"]], d["soap"], [d["tag"]] if d["soap"] else [], []]
         if row is None or list(row[1:]) != want:
             ctx.oracle_fail("entry-point-table:%s" % d["method"], "the entry point %s no longer maps to (%s, %s): recorded %r" % (
                 d["method"], d["tag"], d["service"], row), dict(method=d["method"], recorded=row))
     C.correspond()
     ctx.notes.append("cases compared at %s granularity; %d configurations; symbolic names interned: %d, payloads: %d" % (
         "exact exception class" if EXACT else "handed-over / refused", len(g._entities), len(g._names), len(g._payloads)))
-    ctx.notes.append("model state: PRECHECK_IN_FORCE = false (C01 repair not in the library), F16_FIXED = true (expects proposed_fix/C10-1.diff), "
-                     "OPTIONS_OWN_CONTEXT = true (expects proposed_fix/C10-2.diff)")
+    ctx.notes.append("model state: PRECHECK_IN_FORCE = true (fix: f6d4380b), F16_FIXED = true (fix: 0b54cc6b), OPTIONS_OWN_CONTEXT = true (fix: dace676c)")
 
 
 def cex_search(ctx):
